@@ -126,3 +126,60 @@ def check_c05(tier, seed):
     R = run_plan_property("C05", tier, seed, lambda P, d: PC.check_zero_async(P), nt,
                           "input-free Async providers cannot all overlap")
     return R.finish("cd lean && lake build KV.Props.C05 && lake env lean <audit of Props/C05 theorems>", TRUSTED)
+
+def check_c02(tier, seed):
+    def nt(P):
+        "at least three provider calls"
+        return sum(len(th) for th in P["threads"]) >= 3
+    R = run_plan_property("C02", tier, seed, lambda P, d: PC.check_values(P, d[0], d[1]), nt,
+                          "the planned wiring differs from sequential evaluation of the declaration", needs_decl=True)
+    R.assumptions = ["values are Herbrand terms: providers are uninterpreted functions, type identity is the type key",
+                     "Set regrouping / declaration order / go/packages decoding are covered by the end-to-end stream, not by this in-process stream"]
+    return R.finish("cd lean && lake build KV.Props.C02 && lake env lean <audit of Props/C02 theorems>", TRUSTED)
+
+def check_c10(tier, seed):
+    def nt(P):
+        "at least one parameter"
+        return len(P["args"]) >= 1
+    R = run_plan_property("C10", tier, seed, lambda P, d: PC.check_signature(P, d[0], d[1]), nt,
+                          "the injector signature differs from the one the declaration determines", needs_decl=True)
+    return R.finish("cd lean && lake build KV.Props.C10 && lake env lean <audit of Props/C10 theorems>", TRUSTED)
+
+def check_c09(tier, seed):
+    def nt(P):
+        "accepted plan (refusals are counted separately)"
+        return True
+    def extra(R, S, repo_dir):
+        # verdict of the implementation against the reference classification written from the statement
+        wrong_accept, wrong_refuse, known = [], [], 0
+        kinds = collections.Counter()
+        for i, (line, impl) in enumerate(zip(S["lines"], S["impl"])):
+            ret, provs = G.parse_decl(line[2:])
+            defects, supplied = PC.classify(ret, provs)
+            kinds[",".join(sorted(defects)) or "none"] += 1
+            if defects:
+                if impl.startswith("OK"):
+                    wrong_accept.append((len(line), i, sorted(defects)))
+                elif impl.startswith("ERR"):
+                    k = impl.split()[1]
+                    if k not in ("dup", "orphan", "cycle"):
+                        wrong_refuse.append((len(line), i, "refused with diagnostic kind '%s' although the defect is %s" % (k, sorted(defects))))
+            else:
+                if not impl.startswith("OK"):
+                    if not supplied and impl == "ERR noInitial":
+                        known += 1
+                    else:
+                        wrong_refuse.append((len(line), i, "valid declaration refused: %s" % impl))
+        R.coverage["reference_classification"] = dict(kinds)
+        if known:
+            R.finding("identity-injector-refused", "identity injector (requested type has no supplier) is refused with 'no initial pools found' (%d sampled cases)" % known,
+                      {"kind": "input", "failing_input": "1 ; ", "expected": "accepted", "observed": "ERR noInitial"})
+        for lst, what in ((wrong_accept, "accepted (exit 0, file written) although the declaration is unsatisfiable"), (wrong_refuse, "wrongly refused")):
+            if lst:
+                _, i, d = min(lst)
+                R.violation("%s: %s  [declaration #%d: %s] implementation says: %s" % (what, d, i, S["lines"][i][2:], S["impl"][i]),
+                            {"kind": "input", "failing_input": S["lines"][i][2:], "index": i, "implementation": S["impl"][i],
+                             "model": S["model"][i], "cases": len(lst)})
+    R = run_plan_property("C09", tier, seed, lambda P, d: [], nt, "", extra_obligations=extra)
+    R.assumptions = ["'exits non-zero and leaves the output file alone' is tied by the regenerated call order of processFile (Props/C09) and by the end-to-end stream"]
+    return R.finish("cd lean && lake build KV.Props.C09 && lake env lean <audit of Props/C09 theorems>", TRUSTED)
